@@ -338,7 +338,14 @@ class Interp:
         if m:
             return float(m.group(1))
         if c.startswith('{alloc'):
+            m = re.match(r'\{(alloc\d+): ', c)
+            if m and m.group(1) in self.crate.static_allocs:
+                return mkref(Adt('static:' + self.crate.static_allocs[m.group(1)].split('::')[-1], 0, []))
             return Opaque(c)
+        m = re.match(r'(?:core::num::<impl )?(u8|u16|u32|u64|u128|usize|i8|i16|i32|i64|i128|isize)>?::(MAX|MIN)$', c)
+        if m:
+            lo, hi = INT_BOUNDS[m.group(1)]
+            return hi if m.group(2) == 'MAX' else lo
         if c.startswith('ZeroSized: '):
             ty = c[len('ZeroSized: '):]
             if ty.startswith('{closure@'):
@@ -358,6 +365,9 @@ class Interp:
             return ent(self, c)
         # crate constants
         last = sp.split('::')[-1]
+        for cname, val in self.crate.simple_consts.items():
+            if cname == sp or cname.split('::')[-1] == last:
+                return self.const(val, frame)
         for cname in self.crate.consts:
             if cname == sp or cname.endswith('::' + last) or cname == last:
                 return self.eval_const_item(cname)
@@ -849,6 +859,9 @@ class Interp:
         if op == 'Ne':
             r = self._eq(a, b)
             return (not r) if isinstance(r, bool) else z3.Not(r)
+        if op in ('Lt', 'Le', 'Gt', 'Ge') and not (isinstance(a, (int, float)) or is_sym(a)) or \
+                op in ('Lt', 'Le', 'Gt', 'Ge') and not (isinstance(b, (int, float)) or is_sym(b)):
+            raise Unsupported(f'ordered comparison {op} of {a!r} and {b!r}')
         if op == 'Lt':
             return a < b
         if op == 'Le':
